@@ -19,6 +19,8 @@ CONSTANTS
   BinaryKinds,    \* subset of {"Add", "Subtract"}
   Levels,         \* subset of {"channel", "group", "root"}: where the scaling properties are placed
   Shadow,         \* BOOLEAN set: also place a different, disabled or lower-priority scaling elsewhere
+  DaqTypes,       \* scaler types of the DAQmx slice ({} = no DAQmx cases): channels with two raw scalers (ids 0, 1)
+  MaxDaqScales,   \* further scales stacked on the two DAQmx scalers
   LongChains,     \* lengths of additional Linear chains (scale i reads scale i-1), e.g. {12}: more scales than digits
   GenPrint
 
@@ -72,6 +74,21 @@ Scales(i) ==   \* the scales that may stand at 0-based position i
   \cup (IF "Sensor" \in UnaryKinds THEN {[kind |-> "Sensor", src |-> RAW, sensor |-> k] : k \in SensorKinds} ELSE {})
   \cup {[kind |-> k, l |-> a, r |-> b] : k \in BinaryKinds, a \in srcs, b \in srcs}
 
+\* DAQmx: scale i without a Scale_Type property is the raw scaler with id i; later scales read scalers or scales by
+\* index (the raw data itself is not an input for DAQmx channels)
+ScalesD(i) ==
+  LET srcs == 0..(i - 1) IN
+  (IF "Linear" \in UnaryKinds THEN {[kind |-> "Linear", src |-> s, p |-> p] : s \in srcs, p \in LinearParams} ELSE {})
+  \cup (IF "Polynomial" \in UnaryKinds THEN {[kind |-> "Polynomial", src |-> s, c |-> c] : s \in srcs, c \in {<<1, 0, 2>>}} ELSE {})
+  \cup (IF "NoOp" \in UnaryKinds THEN {[kind |-> "NoOp", src |-> s] : s \in srcs} ELSE {})
+  \cup {[kind |-> k, l |-> a, r |-> b] : k \in BinaryKinds, a \in srcs, b \in srcs}
+RECURSIVE GraphsD(_, _)
+GraphsD(prefix, n) == IF n = 0 THEN {prefix}
+                      ELSE {Append(h, s) : h \in GraphsD(prefix, n - 1), s \in ScalesD(Len(prefix) + n - 1)}
+DaqmxGraphs == UNION {UNION {GraphsD(<<[kind |-> "Scaler", id |-> 0, ty |-> t0], [kind |-> "Scaler", id |-> 1, ty |-> t1]>>, n)
+                               : n \in 0..MaxDaqScales} : t0 \in DaqTypes, t1 \in DaqTypes}
+IsDaqmx(sc) == sc[1].kind = "Scaler"
+
 RECURSIVE Graphs(_)
 Graphs(n) == IF n = 0 THEN {<<>>} ELSE {Append(h, s) : h \in Graphs(n - 1), s \in Scales(n - 1)}
 
@@ -99,7 +116,8 @@ RECURSIVE Eval(_, _, _)
 Eval(sc, i, x) ==        \* value of node i (RAW or 0-based scale index) for raw value x
   IF i = RAW THEN x
   ELSE LET s == sc[i + 1] IN
-       CASE s.kind = "Linear"     -> Eval(sc, s.src, x) * s.p.slope + s.p.icpt
+       CASE s.kind = "Scaler"     -> x + 10 * s.id          \* the raw values of scaler id are the data plus 10 * id
+         [] s.kind = "Linear"     -> Eval(sc, s.src, x) * s.p.slope + s.p.icpt
          [] s.kind = "Polynomial" -> PolyVal(s.c, Eval(sc, s.src, x), 1)
          [] s.kind = "Table"      -> TableVal(s.t, Eval(sc, s.src, x))
          [] s.kind = "NoOp"       -> Eval(sc, s.src, x)
@@ -111,13 +129,15 @@ RECURSIVE DType(_, _, _)
 DType(sc, i, raw) ==
   IF i = RAW THEN raw
   ELSE LET s == sc[i + 1] IN
-       CASE s.kind \in {"Add", "Subtract"} -> ResultType(DType(sc, s.l, raw), DType(sc, s.r, raw))
+       CASE s.kind = "Scaler" -> s.ty
+         [] s.kind \in {"Add", "Subtract"} -> ResultType(DType(sc, s.l, raw), DType(sc, s.r, raw))
          [] s.kind = "NoOp" -> DType(sc, s.src, raw)     \* a no-op scale passes its input through
          [] OTHER -> "float64"                \* every computing scale produces double precision data
 
 RECURSIVE HasSensor(_, _)
 HasSensor(sc, i) == i # RAW /\ LET s == sc[i + 1] IN
   CASE s.kind = "Sensor" -> TRUE
+    [] s.kind = "Scaler" -> FALSE
     [] s.kind \in {"Add", "Subtract"} -> HasSensor(sc, s.l) \/ HasSensor(sc, s.r)
     [] OTHER -> HasSensor(sc, s.src)
 
@@ -129,7 +149,7 @@ NodeOK(sc, i, raw, x) ==
   /\ InRange(Eval(sc, i, x), DType(sc, i, raw))
   /\ CASE s.kind \in {"Add", "Subtract"} -> NodeOK(sc, s.l, raw, x) /\ NodeOK(sc, s.r, raw, x)
        [] s.kind = "Table" -> NodeOK(sc, s.src, raw, x) /\ TableExact(s.t, Eval(sc, s.src, x))
-       [] s.kind = "Sensor" -> TRUE
+       [] s.kind \in {"Sensor", "Scaler"} -> TRUE
        [] OTHER -> NodeOK(sc, s.src, raw, x)
 
 DataOf(raw) == IF IsUnsigned(raw) THEN <<0, 1, 2, 3, 4>> ELSE <<-2, 0, 1, 3, 4>>
@@ -152,7 +172,10 @@ Effective(p) ==    \* what get_scaling returns
 Chain(n) == [i \in 1..n |-> [kind |-> "Linear", src |-> IF i = 1 THEN RAW ELSE i - 2, p |-> [slope |-> 1, icpt |-> i]]]
 Init == g \in [raw : RawTypes, scales : UNION {Graphs(n) : n \in 1..MaxScales} \cup {Chain(n) : n \in LongChains},
                place : Placements,
-               given : BOOLEAN]          \* given: NI_Number_Of_Scales present (else inferred from the property names)
+               given : BOOLEAN]
+        \cup [raw : {"uint8"}, scales : DaqmxGraphs, place : {[lv \in {"channel", "group", "root"} |-> IF lv = "channel" THEN "main" ELSE "none"]},
+               given : {TRUE}]
+\* given: NI_Number_Of_Scales present (else inferred from the property names)
 Next == UNCHANGED g
 Spec == Init /\ [][Next]_vars
 
